@@ -42,6 +42,9 @@ func buildParallelCases(e *Env, perType int, useRef bool) []pcase {
 	for _, t := range e.Types() {
 		opts := e.caseOpts(t, perType, 0, false, false)
 		for ci, o := range opts {
+			if ci >= perType {
+				break // only the plain cases: the 70 000-element specials of other checks would dominate the time
+			}
 			g := &gen.Gen{S: e.S, C: e.C, R: gen.NewRng(e.Seed, "C20", t.QName, ci), O: o}
 			v := g.Value(t)
 			var w []byte
